@@ -955,6 +955,305 @@ Proof.
   - intros c Hc. rewrite K0 in Hc. discriminate.
 Qed.
 
+(* ====================================================================================== *)
+(* ---------- values: every symbol the decoder stores is the codeword's (C01) ---------- *)
+Hypothesis sxor_assoc : forall a b c, sxor a (sxor b c) = sxor (sxor a b) c.
+Hypothesis sxor_comm : forall a b, sxor a b = sxor b a.
+Hypothesis sxor_0_l : forall a, sxor s0 a = a.
+Hypothesis sxor_nilp : forall a, sxor a a = s0.
+Variable cw : nat -> Sy.                         (* the codeword: value of every matrix column *)
+Definition xs (l : list nat) : Sy := fold_right sxor s0 (map cw l).
+Hypothesis parity : forall i, i < R0 -> xs (nth i H0 []) = s0.
+
+Lemma sxor_0_r' a : sxor a s0 = a.  Proof. now rewrite sxor_comm, sxor_0_l. Qed.
+
+(* V1: stored symbols are codeword symbols; V2: the partial sum of a row with a single remaining
+   entry is the codeword symbol of that entry *)
+Definition Val (s : st) : Prop :=
+  (forall c v, nth c (tab s) None = Some v -> v = cw c) /\
+  (forall i t cc, i < R0 -> nth i (ct s) None = Some t -> nth i (rws s) [] = [cc] -> t = cw cc).
+
+Lemma xs_filter_split (p : nat -> bool) l : xs l = sxor (xs (filter p l)) (xs (filter (fun x => negb (p x)) l)).
+Proof.
+  unfold xs. induction l as [|x l IH]; simpl; [now rewrite sxor_0_l|]. rewrite IH.
+  destruct (p x); simpl.
+  - now rewrite sxor_assoc.
+  - rewrite !sxor_assoc. f_equal. apply sxor_comm.
+Qed.
+
+Lemma xs_remove c l : NoDup l -> In c l -> xs l = sxor (cw c) (xs (filter (fun x => negb (x =? c)) l)).
+Proof.
+  unfold xs. induction l as [|x l IH]; intros Hnd Hin; [inversion Hin|].
+  inversion Hnd as [|? ? Hx Hnd']; subst. simpl. destruct (Nat.eqb_spec x c) as [->|Hne]; simpl.
+  - f_equal. f_equal. f_equal. symmetry. clear -Hx. induction l as [|y l IHl]; simpl; auto.
+    destruct (Nat.eqb_spec y c) as [->|]; simpl; [exfalso; apply Hx; now left|]. f_equal. apply IHl. intros H; apply Hx; now right.
+  - destruct Hin as [E|Hin]; [congruence|]. rewrite (IH Hnd' Hin). rewrite !sxor_assoc. f_equal. apply sxor_comm.
+Qed.
+
+Lemma fold_known_values (s : st) : (forall c v, nth c (tab s) None = Some v -> v = cw c) ->
+  forall l t1, (forall c, In c l -> known s c = true) ->
+  fold_left (fun acc c' => match nth c' (tab s) None with Some w => sxor acc w | None => acc end) l t1 = sxor t1 (xs l).
+Proof.
+  intros V1. unfold xs. induction l as [|c l IH]; intros t1 Hk; simpl; [now rewrite sxor_0_r'|].
+  pose proof (Hk c (or_introl eq_refl)) as Hc. unfold known in Hc.
+  destruct (nth c (tab s) None) as [w|] eqn:E; [|discriminate]. rewrite (V1 c w E).
+  rewrite IH by (intros; apply Hk; now right). now rewrite sxor_assoc.
+Qed.
+
+Lemma step2_row_val s e v i kn :
+  WF s -> i < R0 -> e < N0 -> kn e = false -> (forall c, known s c = kadd kn e c) ->
+  In e (nth i (rws s) []) -> rowinv kn None s i -> Val s -> v = cw e ->
+  Val (fst (step2_row sxor s0 s e v i)).
+Proof.
+  intros W Hi He Hk Hkn Hin Hrow (V1 & V2) Hv.
+  destruct W as [Wr Wn Wrws Wunk Wenc Wct Wtab Wfnd Wcur].
+  unfold step2_row. unfold rowinv in Hrow.
+  destruct (nth i (ct s) None) as [t|] eqn:Ect.
+  - (* the row already has a partial sum: it holds exactly [e] and becomes empty *)
+    destruct Hrow as (A & B & C & D).
+    assert (Hrw : nth i (rws s) [] = [e]).
+    { rewrite A in *. destruct (Urow kn i) as [|x [|y l]]; simpl in *.
+      - tauto.
+      - destruct Hin as [->|[]]. reflexivity.
+      - lia. }
+    simpl. split; [exact V1|]. intros j t' cc Hj Hct Hr. simpl in Hct, Hr.
+    destruct (Nat.eq_dec j i) as [->|Hne].
+    + rewrite nth_upd_eq in Hr by lia. rewrite Hrw in Hr. simpl in Hr. rewrite Nat.eqb_refl in Hr. simpl in Hr. discriminate.
+    + rewrite nth_upd_neq in Hr by auto. rewrite nth_upd_neq in Hct by auto. apply (V2 j t' cc Hj Hct Hr).
+  - destruct Hrow as [(A & B & C & D)|(A & _)]; [|rewrite A in Hin; inversion Hin].
+    destruct (getn (unk s) i - 1 =? 1) eqn:Eu.
+    + (* fresh partial sum: exactly one unknown symbol is left in this row *)
+      simpl. split; [exact V1|]. intros j t' cc Hj Hct Hr. simpl in Hct, Hr.
+      destruct (Nat.eq_dec j i) as [->|Hne]; [|rewrite nth_upd_neq in Hr by auto; rewrite nth_upd_neq in Hct by auto; apply (V2 j t' cc Hj Hct Hr)].
+      rewrite nth_upd_eq in Hr by lia. rewrite nth_upd_eq in Hct by lia. inversion Hct as [Ht']. clear Hct.
+      assert (Hdeg : 1 <? getn (enc s) i = true) by (apply Nat.ltb_lt; rewrite C; apply (H0_deg i Hi)).
+      rewrite Hdeg. rewrite A in *.
+      set (ents := filter (fun c' => negb (c' =? e)) (nth i H0 [])) in *.
+      rewrite (fold_known_values s V1) by (intros c Hc; apply filter_In in Hc; tauto).
+      rewrite sxor_0_l, Hv.
+      (* parity of row i: cw e + known others + cw cc = 0 *)
+      pose proof (parity i Hi) as Hp. rewrite (xs_remove e _ (H0_nodup i Hi) Hin) in Hp. fold ents in Hp.
+      rewrite (xs_filter_split (known s) ents) in Hp. rewrite Hr in Hp.
+      change (xs [cc]) with (sxor (cw cc) s0) in Hp. rewrite sxor_0_r' in Hp.
+      rewrite sxor_assoc in Hp.
+      (* a + cw cc = 0  ->  a = cw cc *)
+      set (a := sxor (cw e) (xs (filter (known s) ents))) in *.
+      assert (Ha : a = cw cc).
+      { assert (E : sxor (sxor a (cw cc)) (cw cc) = sxor s0 (cw cc)) by now rewrite Hp.
+        rewrite <- sxor_assoc, sxor_nilp, sxor_0_r', sxor_0_l in E. exact E. }
+      exact Ha.
+    + simpl. split; [exact V1|]. exact V2.
+Qed.
+
+Lemma step2_fold_val e v kn : e < N0 -> kn e = false -> v = cw e ->
+  forall rowsl (s:st) L, NoDup rowsl ->
+  (forall i, In i rowsl -> i < R0 /\ In e (nth i (rws s) []) /\ rowinv kn None s i) ->
+  WF s -> (forall c, known s c = kadd kn e c) -> Val s ->
+  Val (fst (fold_left (f2 e v) rowsl (s, L))).
+Proof.
+  intros He Hk Hv. subst v. induction rowsl as [|a rest IH]; intros s L ND Hrows W Hkn HV; [exact HV|].
+  simpl. inversion ND as [|? ? Hnotin ND']; subst.
+  destruct (Hrows a (or_introl eq_refl)) as (Ha & Hina & Hrowa).
+  pose proof (step2_row_spec s e (cw e) a kn W Ha He Hk Hkn Hina Hrowa) as Hspec.
+  pose proof (step2_row_val s e (cw e) a kn W Ha He Hk Hkn Hina Hrowa HV eq_refl) as HV1.
+  destruct (step2_row sxor s0 s e (cw e) a) as [s1 rdy] eqn:E1. simpl in HV1.
+  destruct Hspec as (W1 & T1 & F1 & R1 & S1 & RD1).
+  assert (Hkn1 : forall c, known s1 c = kadd kn e c) by (intros c; rewrite (known_tab_eq _ _ T1); auto).
+  assert (Hrows1 : forall i, In i rest -> i < R0 /\ In e (nth i (rws s1) []) /\ rowinv kn None s1 i).
+  { intros i Hi. destruct (Hrows i (or_intror Hi)) as (A & B & C).
+    assert (i <> a) by (intro; subst; tauto).
+    specialize (S1 i H). split; auto. split.
+    - destruct S1 as (Q & _). now rewrite Q.
+    - eapply rowinv_same_row; eauto. }
+  apply (IH s1 _ ND' Hrows1 W1 Hkn1 HV1).
+Qed.
+
+Lemma step2_val (s:st) e v :
+  WF s -> e < N0 -> known s e = true ->
+  (forall i, i < R0 -> rowinv (fun c => known s c && negb (c =? e)) (Some e) s i) ->
+  Val s -> v = cw e -> Val (fst (step2 sxor s0 s e v)).
+Proof.
+  intros W He Hke Hrows HV Hv.
+  set (kn := fun c => known s c && negb (c =? e)).
+  assert (Hk : kn e = false) by (unfold kn; rewrite Nat.eqb_refl; apply andb_false_r).
+  assert (Hkn : forall c, known s c = kadd kn e c).
+  { intros c. unfold kadd, kn. destruct (c =? e) eqn:E.
+    - apply Nat.eqb_eq in E; subst. rewrite Hke. reflexivity.
+    - simpl. now rewrite andb_true_r, orb_false_r. }
+  unfold step2. fold (f2 e v).
+  apply (step2_fold_val e v kn He Hk Hv (rows_with s e) s [] (rows_with_nodup s e)); auto.
+  intros i Hi. apply (rows_with_spec s e i (wf_r s W)) in Hi. destruct Hi as (A & B). split; auto. split; auto.
+  eapply rowinv_pend_none; [|apply Hrows; auto]. intro Hnil. rewrite Hnil in B. inversion B.
+Qed.
+
+Lemma Val_fields_eq (s s':st) : tab s' = tab s -> rws s' = rws s -> ct s' = ct s -> Val s -> Val s'.
+Proof. intros T A D (V1 & V2). unfold Val. rewrite T, A, D. auto. Qed.
+
+Lemma Val_consume (s:st) i : Val s -> Val (consume s i).
+Proof.
+  intros (V1 & V2). split; [exact V1|]. intros j t cc Hj Hct Hr. simpl in Hct, Hr.
+  destruct (Nat.eq_dec j i) as [->|Hne].
+  - destruct (Nat.lt_ge_cases i (length (ct s))) as [Hl|Hl].
+    + rewrite nth_upd_eq in Hct by exact Hl. discriminate.
+    + rewrite nth_overflow in Hct by (rewrite upd_length; exact Hl). discriminate.
+  - rewrite nth_upd_neq in Hct by auto. rewrite nth_upd_neq in Hr by auto. apply (V2 j t cc Hj Hct Hr).
+Qed.
+
+Lemma step3_complete_val dec L (s s':st) : WF s -> iscomp s -> Val s -> step3 dec L s = Some s' -> Val s'.
+Proof.
+  intros W Hc HV H. destruct L as [|row L'].
+  - simpl in H. inversion H; subst. exact HV.
+  - rewrite step3_cons in H. pose proof (is_complete_spec s W) as Hs. destruct (is_complete s) as [b s1].
+    destruct Hs as (_ & T1 & A1 & _ & _ & D1 & Hb).
+    assert (b = true) by (apply Hb; auto). subst b. inversion H; subst.
+    apply (Val_fields_eq s s' T1 A1 D1 HV).
+Qed.
+
+(* the recursive decoder keeps the value invariant (by induction on the fuel, alongside the contract) *)
+Definition ValContract (dec : st -> nat -> Sy -> option st) := forall s e v s',
+  WF s -> PInv s e -> known s e = false -> e < N0 -> Val s -> v = cw e -> dec s e v = Some s' -> Val s'.
+
+Lemma step3_val dec : Contract dec -> ValContract dec -> forall L (s s':st),
+  WF s -> Inv s -> (forall i, In i L -> i < R0) -> Val s -> step3 dec L s = Some s' -> Val s'.
+Proof.
+  intros HC HVC. induction L as [|row L' IH]; intros s s' W HI HL HV H; [simpl in H|rewrite step3_cons in H].
+  - inversion H; subst. exact HV.
+  - pose proof (is_complete_spec s W) as Hs. destruct (is_complete s) as [b s1].
+    destruct Hs as (W1 & T1 & A1 & B1 & C1 & D1 & Hb).
+    assert (HI1 : Inv s1) by (eapply Inv_fields_eq; eauto).
+    assert (HV1 : Val s1) by (apply (Val_fields_eq s s1 T1 A1 D1 HV)).
+    destruct b; [inversion H; subst; exact HV1|].
+    assert (Hrow : row < R0) by (apply HL; now left).
+    assert (HL' : forall i, In i L' -> i < R0) by (intros i Hi; apply HL; now right).
+    destruct (getn (enc s1) row =? 1) eqn:E1.
+    + apply Nat.eqb_eq in E1.
+      destruct (ready_row_shape s1 row Hrow (HI1 row Hrow) E1) as (cc & t & Hr & Hct & HU).
+      rewrite Hr, Hct in H.
+      destruct (consume_spec s1 row cc t W1 HI1 Hrow Hr Hct HU) as (Wc & Pc & Tc & Kc & Cc & NRc & Sc & Pl).
+      destruct (dec (consume s1 row) cc t) as [s2|] eqn:Ed; [|discriminate].
+      assert (Kc' : known (consume s1 row) cc = false) by (rewrite (known_tab_eq _ _ Tc); auto).
+      assert (Ht : t = cw cc) by (destruct HV1 as (_ & V2); apply (V2 row t cc Hrow Hct Hr)).
+      pose proof (HVC _ _ _ _ Wc Pc Kc' Cc (Val_consume s1 row HV1) Ht Ed) as HV2.
+      destruct (HC _ _ _ _ Wc Pc Kc' Cc Ed) as (W2 & M2 & K2 & S2 & Post2).
+      destruct Post2 as [Hcomp2|(HI2 & R2)].
+      * apply (step3_complete_val dec L' s2 s' W2 Hcomp2 HV2 H).
+      * apply (IH s2 s' W2 HI2 HL' HV2 H).
+    + apply (IH s1 s' W1 HI1 HL' HV1 H).
+Qed.
+
+Lemma decode_val fuel : ValContract (decode sxor s0 fuel).
+Proof.
+  induction fuel as [|f IH]; intros s e v s' W HP Hke He HV Hv Hdec; [discriminate|].
+  rewrite decode_unfold in Hdec. rewrite Hke in Hdec. cbv zeta in Hdec.
+  set (s1 := set_tab s e v) in *.
+  assert (Hk1 : forall c, known s1 c = known s c || (c =? e)) by (intros c; apply known_set_tab; rewrite (wf_tab s W); auto).
+  assert (W1 : WF s1).
+  { destruct W as [Wr Wn Wrws Wunk Wenc Wct Wtab Wfnd Wcur]. constructor; simpl; rewrite ?upd_length; auto.
+    intros j Hj. rewrite Hk1. rewrite Wcur; auto. }
+  assert (HV1 : Val s1).
+  { destruct HV as (V1 & V2). split; [|exact V2]. intros c w Hc. simpl in Hc.
+    destruct (Nat.eq_dec c e) as [->|Hne].
+    - rewrite nth_upd_eq in Hc by (rewrite (wf_tab s W); exact He). inversion Hc; subst; reflexivity.
+    - rewrite nth_upd_neq in Hc by auto. apply (V1 c w Hc). }
+  (* the early completion check only moves the cursor *)
+  assert (Hearly : exists b sx, (if r s1 <=? e then is_complete s1 else (false, s1)) = (b, sx) /\
+            WF sx /\ tab sx = tab s1 /\ rws sx = rws s1 /\ unk sx = unk s1 /\ enc sx = enc s1 /\ ct sx = ct s1).
+  { destruct (r s1 <=? e).
+    - pose proof (is_complete_spec s1 W1) as Hs. destruct (is_complete s1) as [b sx]. exists b, sx. tauto.
+    - exists false, s1. split; [reflexivity|]. split; [exact W1|]. repeat (split; [reflexivity|]); reflexivity. }
+  destruct Hearly as (b & sx & Ee & Wx & Tx & Ax & Bx & Cx & Dx). rewrite Ee in Hdec. simpl in Hdec.
+  assert (HVx : Val sx) by (apply (Val_fields_eq s1 sx Tx Ax Dx HV1)).
+  destruct b; [inversion Hdec; subst; exact HVx|].
+  assert (Hkx : forall c, known sx c = known s c || (c =? e)) by (intros c; rewrite (known_tab_eq s1 sx Tx); auto).
+  assert (Hkex : known sx e = true) by (rewrite Hkx, Nat.eqb_refl; apply orb_true_r).
+  assert (Hrows : forall i, i < R0 -> rowinv (fun c => known sx c && negb (c =? e)) (Some e) sx i).
+  { intros i Hi. specialize (HP i Hi).
+    eapply rowinv_kn_ext; [|eapply rowinv_fields_eq; eauto].
+    intros c. simpl. rewrite Hkx. destruct (c =? e) eqn:E; simpl.
+    - apply Nat.eqb_eq in E; subst. now rewrite Hke.
+    - now rewrite orb_false_r, andb_true_r. }
+  pose proof (step2_spec sx e v Wx He Hkex Hrows) as H2.
+  pose proof (step2_val sx e v Wx He Hkex Hrows HVx Hv) as HV2.
+  destruct (step2 sxor s0 sx e v) as [s2 L]. simpl in HV2.
+  destruct H2 as (W2 & T2 & F2 & I2 & R2 & L2).
+  assert (HLrev : forall i, In i (rev L) -> i < R0) by (intros i Hi; apply L2; now apply in_rev).
+  apply (step3_val (decode sxor s0 f) (decode_contract f) IH (rev L) s2 s' W2 I2 HLrev HV2 Hdec).
+Qed.
+
+(* once complete, a call at most stores the submitted symbol *)
+Lemma decode_complete_tab fuel (s s':st) e v : WF s -> iscomp s -> e < N0 ->
+  decode sxor s0 fuel s e v = Some s' -> tab s' = tab s \/ tab s' = upd (tab s) e (Some v).
+Proof.
+  intros W Hc He Hdec. destruct fuel as [|f]; [discriminate|]. rewrite decode_unfold in Hdec.
+  destruct (known s e) eqn:Hke; [inversion Hdec; subst; now left|right].
+  cbv zeta in Hdec. set (s1 := set_tab s e v) in *.
+  assert (Hk1 : forall c, known s1 c = known s c || (c =? e)) by (intros c; apply known_set_tab; rewrite (wf_tab s W); auto).
+  assert (W1 : WF s1).
+  { destruct W as [Wr Wn Wrws Wunk Wenc Wct Wtab Wfnd Wcur]. constructor; simpl; rewrite ?upd_length; auto.
+    intros j Hj. rewrite Hk1. rewrite Wcur; auto. }
+  assert (Hc1 : iscomp s1) by (intros c Hcc; rewrite Hk1, Hc; auto).
+  change (upd (tab s) e (Some v)) with (tab s1).
+  destruct (r s1 <=? e).
+  - pose proof (is_complete_spec s1 W1) as Hs. destruct (is_complete s1) as [b sx].
+    destruct Hs as (Wx & Tx & _ & _ & _ & _ & Hb). assert (b = true) by (apply Hb; auto). subst b.
+    simpl in Hdec. inversion Hdec; subst. exact Tx.
+  - simpl in Hdec. unfold step2 in Hdec. fold (f2 e v) in Hdec.
+    assert (HL : forall i, In i (rows_with s1 e) -> i < R0).
+    { intros i Hi. apply (rows_with_spec s1 e i (wf_r s1 W1)) in Hi. tauto. }
+    destruct (step2_fold_wf e v (rows_with s1 e) s1 [] W1 HL) as (W2 & T2).
+    destruct (fold_left (f2 e v) (rows_with s1 e) (s1, [])) as [s2 L]. simpl in *.
+    assert (Hc2 : iscomp s2) by (apply (iscomp_tab_eq s1 s2); [exact T2|exact Hc1]).
+    destruct (step3_complete (decode sxor s0 f) (rev L) s2 s' W2 Hc2 Hdec) as (W' & C' & T').
+    rewrite T'. exact T2.
+Qed.
+
+Definition TabVal (s : st) := forall c v, nth c (tab s) None = Some v -> v = cw c.
+
+(* top level: along any run fed with codeword symbols, every stored symbol is the codeword's *)
+Theorem run_values fuel (hist : list (nat * Sy)) (s : st) :
+  (forall ev, In ev hist -> fst ev < N0 /\ snd ev = cw (fst ev)) -> run fuel hist = Some s ->
+  forall c v, nth c (tab s) None = Some v -> v = cw c.
+Proof.
+  intros Hh Hrun.
+  assert (Hgen : forall h (sA s1 : st),
+     (forall ev, In ev h -> fst ev < N0 /\ snd ev = cw (fst ev)) ->
+     fold_left (fun os ev => match os with Some s => decode sxor s0 fuel s (fst ev) (snd ev) | None => None end) h (Some sA) = Some s1 ->
+     Good sA -> TabVal sA -> (iscomp sA \/ Val sA) -> TabVal s1).
+  { induction h as [|ev h IH]; intros sA s1 Hev Hf HG HT HV; simpl in Hf.
+    - inversion Hf; subst. exact HT.
+    - destruct (decode sxor s0 fuel sA (fst ev) (snd ev)) as [sB|] eqn:Ed.
+      2:{ exfalso. clear -Hf. induction h as [|x h IHh]; simpl in Hf; [discriminate|auto]. }
+      destruct (Hev ev (or_introl eq_refl)) as (Hr & Hcw).
+      assert (GB : Good sB).
+      { destruct (decode_good fuel sA sB (fst ev) (snd ev) (fun _ => True) HG) as (GB & _); auto.
+        intros c Hc. apply peel_recv. exact I. }
+      assert (Hcomp : iscomp sA -> TabVal sB /\ iscomp sB).
+      { intros Hc. destruct HG as (W & _).
+        destruct (decode_complete fuel sA sB (fst ev) (snd ev) W Hc Hr Ed) as (_ & CB & _).
+        split; [|exact CB].
+        destruct (decode_complete_tab fuel sA sB (fst ev) (snd ev) W Hc Hr Ed) as [T|T]; intros c w Hcw'; rewrite T in Hcw'.
+        - apply (HT c w Hcw').
+        - destruct (Nat.eq_dec c (fst ev)) as [->|Hne].
+          + rewrite nth_upd_eq in Hcw' by (rewrite (wf_tab sA W); exact Hr). inversion Hcw'; subst; auto.
+          + rewrite nth_upd_neq in Hcw' by auto. apply (HT c w Hcw'). }
+      assert (HB : TabVal sB /\ (iscomp sB \/ Val sB)).
+      { destruct HV as [Hc|HV]; [destruct (Hcomp Hc); auto|].
+        destruct HG as (W & [Hc|(HI & HN)]); [destruct (Hcomp Hc); auto|].
+        assert (VB : Val sB).
+        { destruct (known sA (fst ev)) eqn:Hke.
+          - destruct fuel as [|f]; [discriminate|]. rewrite decode_unfold, Hke in Ed. inversion Ed; subst. exact HV.
+          - apply (decode_val fuel sA (fst ev) (snd ev) sB W (Inv_PInv sA (fst ev) HI) Hke Hr HV Hcw Ed). }
+        split; [exact (proj1 VB)|now right]. }
+      destruct HB as (TB & VB).
+      apply (IH sB s1 (fun e He => Hev e (or_intror He)) Hf GB TB VB). }
+  destruct init_good as (G0 & K0).
+  assert (HV0 : Val (init Sy R0 N0 H0)).
+  { split.
+    - intros c v Hc. simpl in Hc. rewrite nth_repeat_none in Hc. discriminate.
+    - intros i t cc Hi Hct. simpl in Hct. rewrite nth_repeat_none in Hct. discriminate. }
+  exact (Hgen hist (init Sy R0 N0 H0) s Hh Hrun G0 (proj1 HV0) (or_intror HV0)).
+Qed.
+
 End P.
 
 Print Assumptions it_is_peeling.
